@@ -128,6 +128,14 @@ def _provably_distinct(k1, k2):
     return False
 
 
+class ShapeOf:
+    def __init__(self, arrname):
+        self.name = arrname
+
+    def dim(self, k):
+        return Symbol(f"n{k}_{self.name}", integer=True, positive=True)
+
+
 class SymExec:
     """symbolic execution of one function body under the pointwise discipline"""
 
@@ -202,12 +210,16 @@ class SymExec:
                 i = self.ev(e.slice)
                 if i.is_Integer:
                     return base[int(i)]
+            if isinstance(base, ShapeOf):
+                i = self.ev(e.slice)
+                if i.is_Integer:
+                    return base.dim(int(i))
             raise Undecided(f"subscript `{src(e)[:50]}`")
         if isinstance(e, ast.Attribute):
             base = e.value
             if isinstance(base, ast.Name) and base.id in self.env and isinstance(self.env[base.id], Arr) and e.attr == "shape":
                 a = self.env[base.id]
-                return tuple(Symbol(f"n{k}_{a.name}", integer=True, positive=True) for k in range(4))
+                return ShapeOf(a.name)
             if isinstance(base, ast.Name) and base.id in ("np", "numpy", "math") and e.attr == "pi":
                 return PI
             raise Undecided(f"attribute `{src(e)[:50]}`")
@@ -356,6 +368,8 @@ class SymExec:
                 raise Undecided(f"slice store `{src(t)[:40]}`")
             base.write(self.index(t.slice), val)
         elif isinstance(t, ast.Tuple):
+            if isinstance(val, ShapeOf):
+                val = tuple(val.dim(k) for k in range(len(t.elts)))
             if not isinstance(val, (tuple, list)) or len(val) != len(t.elts):
                 raise Undecided("tuple assignment")
             for e, v in zip(t.elts, val):
@@ -602,10 +616,33 @@ def resolve_ite(e, val):
     return e.func(*[resolve_ite(a, val) for a in e.args])
 
 
+def _split_sums(e):
+    """e = rest + sum_k Sum(term_k, limits_k)  ->  (rest, {limits: term})"""
+    e = sp.expand(e)
+    rest = 0
+    sums = {}
+    for t in sp.Add.make_args(e):
+        c, s_ = t.as_coeff_Mul()
+        if isinstance(s_, sp.Sum):
+            sums[s_.limits] = sums.get(s_.limits, 0) + c * s_.function
+        elif isinstance(t, sp.Sum):
+            sums[t.limits] = sums.get(t.limits, 0) + t.function
+        else:
+            rest += t
+    return rest, sums
+
+
 def alg_equal(a, b):
-    """polynomial identity after cross-multiplication (atoms: symbols and function applications)"""
+    """polynomial identity after cross-multiplication (atoms: symbols and function applications);
+    sums over the same range are compared summand-wise"""
     if a == b:
         return True
+    if (getattr(a, "has", None) and a.has(sp.Sum)) or (getattr(b, "has", None) and b.has(sp.Sum)):
+        ra, sa = _split_sums(a)
+        rb, sb = _split_sums(b)
+        if set(sa) != set(sb):
+            return False
+        return alg_equal(ra, rb) and all(alg_equal(sa[k], sb[k]) for k in sa)
     d = sp.together(a - b)
     n, _ = sp.fraction(d)
     n = sp.expand(n)
